@@ -162,7 +162,7 @@ class Batch:
             with self.lock:
                 self.crashes.append(dict(cfg=self.cfg, idx=crashed, rc=rc, stderr=(errbuf[0] if errbuf else '')[-8000:]))
             restarts += 1
-            if restarts > 25:
+            if restarts > 10:
                 self.incomplete = True
                 return
             start = crashed + W
